@@ -34,6 +34,19 @@ SEPS = {
     'seq': ('seq', [('str', ','), ('str', 'b')]),
     'alt': ('alt', [('str', ','), ('str', 'b,')]),
 }
+# thorough tier: more element / separator shapes (nullable separator, optional prefix, nested lists,
+# lookahead-guarded elements, regex)
+ELEMS_MORE = {
+    'optprefix': ('seq', [('opt', ('str', 'b')), ('str', 'a')]),
+    'regex': ('re', 'a+', False),
+    'guarded': ('right', ('expectnot', ('str', 'ab')), ('re', '[ab]', False)),
+    'nested': ('seq', [('str', 'b'), ('sep', ('str', 'a'), ('str', ','), {'_op': '//'})]),
+}
+SEPS_MORE = {
+    'nullable': ('opt', ('str', ',')),
+    'regex': ('re', ',+', False),
+    'keepalt': ('alt', [('str', ','), ('str', 'b')]),
+}
 EXTRA = {'E': ('alt', [('seq', [('str', 'a'), ('str', 'a')]), ('str', 'b')])}
 REST = ('re', '[ab,]*', False)
 
@@ -69,9 +82,12 @@ def all_sep_options():
 def run_shard(rec):
     quick = rec.tier == 'quick'
     rec.deadline = time.time() + (60 if quick else 900)
-    maxlen = 5 if quick else 6
+    maxlen = 5 if quick else 7
+    if not quick:
+        ELEMS.update(ELEMS_MORE)
+        SEPS.update(SEPS_MORE)
     ins = work.inputs_for('ab,', maxlen)
-    ins_small = work.inputs_for('ab,', 4)
+    ins_small = work.inputs_for('ab,', 4 if quick else 5)
     idx = 0
     an_cache = {}
 
